@@ -213,8 +213,8 @@ theorem selectNbrs_nonempty (n : Pmax.Q) (k level : Nat) (hk : 1 ≤ k) (hn : Pm
 /-! ### the theorem -/
 
 include hmin hmax in
-theorem search_sound (hinv : Inv s) (k : Nat) :
-    let r := search Pmin Pmax dist cfg s q k
+theorem searchCore_sound (hinv : Inv s) (k : Nat) :
+    let r := searchCore Pmin Pmax dist cfg s q k
     (∀ h ∈ r, ∃ v x, s.live h.id = some v ∧ s.verts v = some x ∧ x.deleted = false ∧
         h.md = x.md ∧ h.score = dist q x.vec) ∧
     (r.map (·.score)).Pairwise (· ≤ ·) ∧
@@ -224,7 +224,7 @@ theorem search_sound (hinv : Inv s) (k : Nat) :
   intro r
   cases hent : s.entry with
   | none =>
-    have hr : r = [] := by simp [r, search, hent]
+    have hr : r = [] := by simp [r, searchCore, hent]
     rw [hr]
     refine ⟨by simp, by simp, by simp, by simp, ?_⟩
     rintro ⟨i, v, hv⟩ _
@@ -261,7 +261,7 @@ theorem search_sound (hinv : Inv s) (k : Nat) :
     -- unfold the result
     have hr : r = ((Pmax.drain sel).take k).reverse.filterMap fun it =>
         (s.verts it.vid).map fun x => (⟨x.id, x.md, it.score⟩ : Hit) := by
-      simp only [r, search, hent, hdesc, hselq]
+      simp only [r, searchCore, hent, hdesc, hselq]
     -- a non-tombstoned vertex is allocated
     have alloc : ∀ v, s.isDeleted v = false → ∃ x, s.verts v = some x ∧ x.deleted = false := by
       intro v hv
@@ -356,6 +356,22 @@ theorem search_sound (hinv : Inv s) (k : Nat) :
         rw [hd] at this
         obtain ⟨k', rfl⟩ : ∃ k', k = k' + 1 := ⟨k - 1, by omega⟩
         simp at this
+
+include hmin hmax in
+/-- C01 for `search` (with `k` clamped to the number of stored items, as the code does) -/
+theorem search_sound (hinv : Inv s) (k : Nat) :
+    let r := search Pmin Pmax dist cfg s q k
+    (∀ h ∈ r, ∃ v x, s.live h.id = some v ∧ s.verts v = some x ∧ x.deleted = false ∧
+        h.md = x.md ∧ h.score = dist q x.vec) ∧
+    (r.map (·.score)).Pairwise (· ≤ ·) ∧
+    (r.map (·.id)).Nodup ∧
+    r.length ≤ k ∧
+    ((∃ i v, s.live i = some v) → 1 ≤ k → r ≠ []) := by
+  intro r
+  obtain ⟨h1, h2, h3, h4, h5⟩ := searchCore_sound (dist := dist) cfg hmin hmax s q hinv (clampK s k)
+  have hle : clampK s k ≤ k := by unfold clampK; split <;> omega
+  have hpos : 1 ≤ k → 1 ≤ clampK s k := by intro hk; unfold clampK; split <;> omega
+  exact ⟨h1, h2, h3, Nat.le_trans h4 hle, fun hl hk => h5 hl (hpos hk)⟩
 
 end
 end Anndb
